@@ -548,7 +548,19 @@ class NpProxy:
 
     def ptp(self, a, axis=None):
         if _isobj(a) and is_sym(a):
-            raise EngineUnsupported("ptp of symbolic data")
+            if axis is not None:
+                raise EngineUnsupported("ptp with an axis on symbolic data")
+            # peak-to-peak as a fresh value r with r >= x_i - x_j for all i, j (a sound over-approximation of
+            # max - min: every real value of ptp satisfies these constraints)
+            r = E.fresh('ptp')
+            flat = [toz(x) for x in a.ravel()]
+            E.defs.append(r >= 0)
+            for i, x in enumerate(flat):
+                for j, y in enumerate(flat):
+                    if i != j:
+                        E.defs.append(r >= x - y)
+            E.axioms_used.add('PTP(over-approximation)')
+            return Term(r)
         return _np.ptp(_asfloat_ifnum(a), axis=axis)
 
     def sort(self, a, *args, **k):
